@@ -130,7 +130,62 @@ def conflated(p, q):
     return out
 
 
+UNIVERSE_SCRIPT = r'''
+import importlib, fractions, decimal, itertools
+import basilisp.main as _m
+_m.init()
+from basilisp.lang import compiler as cc, reader as rd, runtime as rt, symbol as sym, keyword as kw, vector as vec, list as llist, map as lmap, set as lset, queue as lqueue
+ns = rt.Namespace.get_or_create(sym.symbol("verif.c05u")); ns.refer_all(rt.Namespace.get_or_create(rt.CORE_NS_SYM))
+sys.modules.setdefault(ns.module.__name__, ns.module)
+def ev(src):
+    with rt.ns_bindings("verif.c05u"):
+        ctx = cc.CompilerContext("<u>"); last = None
+        for f in rd.read_str(src, resolver=rt.resolve_alias): last = cc.compile_and_exec_form(f, ctx, ns)
+        return last
+def cfn(n): return rt.Var.find(sym.symbol(n, ns="basilisp.core")).value
+EQ, HASH, GET, CONTAINS = cfn("="), cfn("hash"), cfn("get"), cfn("contains?")
+U = [1, 1.0, fractions.Fraction(2, 2), decimal.Decimal(1), True, 0, 0.0, False, None, float("nan"), fractions.Fraction(1, 2), 0.5,
+     decimal.Decimal("0.5"), "1", kw.keyword("a"), sym.symbol("a"), vec.vector([1, 2]), llist.list([1, 2]), cfn("first")(lmap.map({1: 2})),
+     lqueue.queue([1, 2]), cfn("map")(cfn("identity"), vec.vector([1, 2])), vec.vector([]), llist.list([]), lmap.map({}), lset.set([]),
+     lmap.map({kw.keyword("x"): 1, kw.keyword("y"): 2}), ev("(do (defrecord Pt [x y]) (->Pt 1 2))"), lset.set([1, 2]), lset.set([1.0, 2]),
+     vec.vector([1.0, 2]), llist.list([vec.vector([1]), llist.list([2])]), vec.vector([llist.list([1]), vec.vector([2])])]
+def isnan(v): return isinstance(v, float) and v != v
+bad = []
+for a, b in itertools.product(U, repeat=2):
+    e = EQ(a, b)
+    if e is not EQ(b, a): bad.append(("asymmetric", a, b))
+    if a is b and not isnan(a) and e is not True: bad.append(("irreflexive", a))
+    if isinstance(a, bool) != isinstance(b, bool) and isinstance(a, (bool, int, float)) and isinstance(b, (bool, int, float)) and e is True:
+        bad.append(("bool-equals-number", a, b))
+    if e is True:
+        if hash(a) != hash(b) or HASH(a) != HASH(b): bad.append(("equal-but-different-hash", a, b))
+        elif GET(lmap.map({a: "v"}), b) != "v" or CONTAINS(lset.set([a]), b) is not True: bad.append(("equal-but-not-found-as-key", a, b))
+for a, b, c in itertools.product(U, repeat=3):
+    if EQ(a, b) is True and EQ(b, c) is True and EQ(a, c) is not True: bad.append(("intransitive", a, b, c))
+if bad:
+    print("REPRODUCED:", len(bad), "violations of the equality/hash laws on the mixed universe, e.g.", [tuple(map(repr, x)) for x in bad[:4]]); sys.exit(1)
+print("HOLDS", len(U), "values")
+'''
+
+
 def run(rep, tier, seed):
+    import time as _t
+    from .. import env as _env
+    from ..env import PROVED, REFUTED, INCONCLUSIVE, Result
+    if getattr(rep, "only", None) is None or "universe" in rep.only:
+        t0 = _t.time()
+        path = _env.write_replay(rep.prop, "mixed-universe", UNIVERSE_SCRIPT)
+        ok, line = _env.replay_reproduces(path, timeout=300)
+        r_ = Result("universe/all-pairs-and-triples (concrete run)", INCONCLUSIVE, engine="concrete run (not solver-decided)", secs=_t.time() - t0,
+                    bound="32 values: int/float/ratio/decimal/bool/nil/NaN, strings, idents, vector/list/map entry/queue/lazy seq, empty collections, map/record, sets, nested")
+        if ok:
+            r_.verdict, r_.replay, r_.detail = REFUTED, path, line[:400]
+            rep.classify_refutation(r_, {"kind": "universe"}, line[:200])
+        elif "holds" in line:
+            r_.verdict, r_.detail = PROVED, "all pairs and triples of the universe, one concrete run"
+        else:
+            r_.detail = line[:300]
+        rep.add(r_)
     quick = tier == "quick"
     rep.encoded("src/basilisp/lang/interfaces.py", ["seq_equals", "ISeq.__eq__", "ISeq.__hash__"], "executed on CrossHair proxies")
     rep.encoded("src/basilisp/lang/vector.py", ["PersistentVector.__eq__", "PersistentVector.__hash__"], "executed on proxies")
